@@ -6,7 +6,10 @@ def hi(cls, m):
     if cls == "MinFlowDecomp":
         # range(lb, |E| + #subpath constraints + 1)   (fixes 2d6e71b, e0ac661)
         return m.G.number_of_edges() + len(m.subpath_constraints) + 1
-    if cls in ("MinFlowDecompCycles", "MinPathCoverCycles"):
+    if cls == "MinFlowDecompCycles":
+        # range(lb, |E(G_internal)| + #subset constraints + 1)  (fixes 2d6e71b, 26b11a1)
+        return m.G.number_of_edges() + len(m.subset_constraints or []) + 1
+    if cls == "MinPathCoverCycles":
         return m.G.number_of_edges() + 1        # range(lb, |E(G_internal)| + 1)  (since fix 2d6e71b)
     if cls == "MinPathCover":
         return m.G.number_of_edges()            # m.G is the (already augmented) stDAG
